@@ -32,6 +32,7 @@ type Engine struct {
 	RecDefs   map[string]*recDef
 	Active    map[string]*Contract
 	Epoch     map[string]bool
+	Estable     map[string]bool
 	Lemmas      []*Lemma
 	PreludeBase string // prelude without the lemma statements
 }
@@ -83,6 +84,14 @@ func loadEngine(repo, verif string) (*Engine, error) {
 		if strings.HasPrefix(l, ";;@epoch ") {
 			for _, k := range strings.Fields(strings.TrimPrefix(l, ";;@epoch ")) {
 				e.Epoch[k] = true
+			}
+		}
+	}
+	e.Estable = map[string]bool{}
+	for _, l := range strings.Split(pb.String(), "\n") {
+		if strings.HasPrefix(l, ";;@estable ") {
+			for _, k := range strings.Fields(strings.TrimPrefix(l, ";;@estable ")) {
+				e.Estable[k] = true
 			}
 		}
 	}
